@@ -75,6 +75,9 @@ def handle (toks : List String) : Option String :=
       | "proj1" => (do
           let k ← a1.toNat?; let m ← a2.toNat?
           pure (showOpt (projectOne k m S))).orElse fun _ => some "err parse"
+      | "proj" => (do
+          let ms ← parseNatList a1
+          pure (showOpt (project ms S))).orElse fun _ => some "err parse"
       | "total" => some ("ok " ++ showRat (total S))
       | _ => some "err op"
   | _ => none
